@@ -25,7 +25,7 @@ CLAUSE -> THEOREM TABLE (review R2; property text: properties.jsonl C16)
         <g + alpha B, B> = <A,B>*(1 - |B|_2^2/|B|_n^2)), orthogonal_iff_two_norm and projection_coefficient_iff_two_norm
         (BOTH orthogonality and "c is the projection coefficient" hold iff |B|_n = |B|_2 -- a unit vector that is B scaled by
         an arbitrary non-zero scalar is NOT enough), norm_kinds_vanish_together (zero branch independent of the kind),
-        norm_kinds_agree_on_one_entry (1x1 tensors cannot see the kind), l1_update_not_orthogonal / maxAbs_update_not_orthogonal
+        norm_kinds_agree_on_one_entry (1x1 tensors cannot see the kind), norm_kinds_ordered (max-abs <= 2-norm <= L1), l1_update_not_orthogonal / maxAbs_update_not_orthogonal
         (2x2 witnesses with non-proportional rows), torch_literal_form_lifted_norm (literal lines = torchStep's non-zero branch
         when nrm is the norm of the LIFTED kind)
   (4) "so g + alpha*dLA/dW is orthogonal to dLA/dW"
@@ -222,6 +222,16 @@ example : frob [[1, 1], [0, 1]] [[1, 0], [0, 1]] / normSq .l1Flat [[1, 1], [0, 1
 /-- the three kinds vanish on exactly the same tensors (the zero tensor): the zero branch does not depend on the kind -/
 theorem norm_kinds_vanish_together (n : NormKind) (B : Mat) : normSq n B = 0 ↔ ∀ r ∈ B, ∀ x ∈ r, x = 0 := by
   rw [normSq_eq_zero_iff, frob_self_eq_zero]
+
+/-- the kinds are ordered, `‖B‖_max² ≤ ‖B‖₂² ≤ ‖B‖₁²` (every tensor): by `norm_kind_orthogonality_defect` the L1 norm leaves a
+    component along dLA/dW of the SAME sign as `<dLP/dW, dLA/dW>` (under-projection), the max-abs norm one of the OPPOSITE
+    sign (over-projection) -/
+theorem norm_kinds_ordered (B : Mat) :
+    normSq .maxAbs B ≤ normSq .frobenius B ∧ normSq .frobenius B ≤ normSq .l1Flat B := normSq_order B
+
+/- strict on a tensor with two non-zero entries -/
+example : normSq .maxAbs [[1, 1], [0, 1]] < normSq .frobenius [[1, 1], [0, 1]] ∧
+    normSq .frobenius [[1, 1], [0, 1]] < normSq .l1Flat [[1, 1], [0, 1]] := by decide +kernel
 
 /-- why a 1×1 tensor cannot see the norm kind -/
 theorem norm_kinds_agree_on_one_entry (n : NormKind) (x : Rat) : normSq n [[x]] = x * x := normSq_single_entry n x
